@@ -14,7 +14,7 @@ use std::collections::{BTreeMap, BTreeSet, HashMap};
 pub const DEF: PropDef = PropDef {
     id: "C05",
     level: "exploration",
-    rule: "case = (program, ordered fact list, layout). Programs: every canonical single rule of the template grammar (families A: 1 premise x head menu; B: every canonical 2-premise body over S{x,y,z,a,w} P{p,q,w,y} O{x,y,z,a,w} with all-variables-exposing conclusions; B': head menu incl. recursive heads on representative 2-premise bodies; C: 3-premise bodies; D: numeric/term filters; E: one safe negated atom) and every ordered pair of the 40-rule core that one stratum of negation can evaluate. Inputs per program: every fact set of <=2 facts over {a,b,c}x(predicates the program can read or write)x{a,b,c}(+\"1\",\"20\" when the program has a numeric filter), reduced by renaming of constants/predicates the program does not mention, in every insertion order; plus 30 curated sets (chains, cycles, diamond, stars, numerics, predicate-as-node) in 3 orders. Every case runs naive, semi-naive, parallel and Boolean-provenance materialisation on a fresh Reasoner and then the same call again. Non-trivial = the least model strictly contains the input (something is derived); distinct = distinct (program, fact set).",
+    rule: "case = (program, ordered fact list, layout). Programs: every canonical single rule of the template grammar (families A: 1 premise x head menu; B: every canonical 2-premise body over S{x,y,z,a,w} P{p,q,w,y} O{x,y,z,a,w} (thorough: every first atom x every atom over S/O{x,y,z,w,a,b} P{p,q,x,y,z,w}) with all-variables-exposing conclusions; B': head menu incl. recursive heads on representative 2-premise bodies; C: 3-premise bodies; D: numeric/term filters; E: one safe negated atom) and every ordered pair of the 40-rule core that one stratum of negation can evaluate. Inputs per program: every fact set of <=2 facts (core pairs in quick: <=1; 3-premise rules in thorough: <=3) over {a,b,c}x(predicates the program can read or write)x{a,b,c}(+\"1\",\"20\" when the program has a numeric filter), reduced by renaming of constants/predicates the program does not mention, in every insertion order; plus 30 curated sets (chains, cycles, diamond, stars, numerics, predicate-as-node) in 3 orders. Every case runs naive, semi-naive, parallel and Boolean-provenance materialisation on a fresh Reasoner and then the same call again. Non-trivial = the least model strictly contains the input (something is derived); distinct = distinct (program, fact set).",
     assumptions: &[
         "oracle = R-datalog (harness/src/reference/datalog.rs): naive least fixpoint, one stratum of safe negation decided at predicate level; programs needing more strata are not generated (counted as excluded)",
         "a numeric filter applied to a non-numeric binding is left open by the statement: cases whose least model differs between the two readings (type error / read as 0) are counted and not judged",
@@ -265,6 +265,20 @@ fn single_rules(sy: &Symbols, thorough: bool) -> Vec<Program> {
         }
         v
     };
+    let (a1s, a2s): (Vec<Atom>, Vec<Atom>) = if thorough {
+        // full alphabets: first atom = every canonical one-premise body, second atom = every atom
+        let mut v2 = Vec::new();
+        for s in s_terms {
+            for p in [c("p"), c("q"), x, y, z, w] {
+                for o in s_terms {
+                    v2.push([s, p, o]);
+                }
+            }
+        }
+        (bodies1.clone(), v2)
+    } else {
+        (a1s, a2s)
+    };
     for a1 in &a1s {
         for a2 in &a2s {
             if a2.iter().all(|t| matches!(t, T::C(_))) {
@@ -403,6 +417,9 @@ fn single_rules(sy: &Symbols, thorough: bool) -> Vec<Program> {
         }
         for n in &negs {
             let mut hs = head_menu(b, sy);
+            if !thorough {
+                hs.truncate(4);
+            }
             hs.push(exposing_heads(b, sy));
             for h in hs {
                 push(Rule { pos: b.clone(), neg: vec![*n], heads: h, ..Default::default() }, "E_negation", &mut out);
@@ -714,7 +731,13 @@ fn curated_sets(sy: &Symbols) -> Vec<Vec<Fact>> {
 fn inputs_for(prog: &Program, sy: &Symbols, curated: &[Vec<Fact>], thorough: bool) -> Vec<Vec<Fact>> {
     let mut out: Vec<Vec<Fact>> = Vec::new();
     let pair = prog.rules.len() > 1;
-    let k = if pair && !thorough { 1 } else { 2 };
+    let k = if pair && !thorough {
+        1
+    } else if thorough && prog.family == "C_three_premises" {
+        3
+    } else {
+        2
+    };
     for set in small_fact_sets(&prog.rules, sy, k) {
         for p in permutations(&set) {
             out.push(p);
@@ -1203,6 +1226,7 @@ fn run(ctx: &Ctx) -> ShardOut {
                 out.count("cases_not_judged_filter_on_non_numeric_binding", 1);
                 continue;
             }
+            out.count(&format!("cases_{}", prog.family), 1);
             let input: BTreeSet<Fact> = facts.iter().cloned().collect();
             for &ff in layouts {
                 out.evaluations += 1;
